@@ -18,6 +18,8 @@ RULE_Q = "metapype.eml.rule.Rule"
 T_NODE, T_OPT, T_NLIST, T_NDICT, T_RULE = "Node", "OptNode", "NodeList", "NodeDict", "Rule"
 T_STR, T_OPTSTR, T_DICT, T_LIST, T_INT, T_BOOL, T_ANY, T_NONE = (
     "str", "optstr", "dict", "list", "int", "bool", "any", "none")
+T_OPTINT, T_OPTANY = "optint", "optany"
+NULLABLE_TYPES = {"OptNode", "optstr", "optint", "optany", "none"}
 T_ELEM = "xmlelem"  # lxml / ElementTree element (duck-inferred)
 T_SPEC = "spec"
 
@@ -38,9 +40,12 @@ def tjoin(a, b):
         return T_NLIST
     if s == {T_DICT, T_NDICT}:
         return T_NDICT
-    if T_NONE in s:
-        other = (s - {T_NONE}).pop()
-        return other
+    if s <= {T_INT, T_OPTINT, T_NONE}:
+        return T_OPTINT
+    if T_SPEC in s and s <= {T_SPEC, T_LIST, T_DICT, T_ANY}:
+        return T_SPEC
+    if T_NONE in s or T_OPTANY in s:
+        return T_OPTANY
     return T_ANY
 
 
@@ -242,6 +247,9 @@ class FuncTypes:
                     t = self._duck(p)
                     if t == T_NODE and none_default:
                         t = T_OPT
+                pt = getattr(self.w, "_pt", {}).get((fi.qname, p))
+                if pt == T_SPEC and t in (None, T_LIST, T_DICT, T_ANY):
+                    t = T_SPEC
             env[p] = t
         # iterate assignments to a fixpoint; names that stay untyped get the duck type
         bound_names = set()
@@ -353,6 +361,8 @@ class FuncTypes:
                 out.append((target.id, T_STR))
             elif t == T_ELEM:
                 out.append((target.id, T_ELEM))
+            elif t == T_SPEC:
+                out.append((target.id, T_SPEC))
         elif isinstance(target, ast.Tuple) and isinstance(it, ast.Call):
             f = it.func
             if isinstance(f, ast.Name) and f.id == "enumerate" and it.args and len(target.elts) == 2:
@@ -439,6 +449,11 @@ class FuncTypes:
             if bt == T_DICT:
                 return T_STR if False else None
             if bt == T_SPEC:
+                if isinstance(e.slice, ast.UnaryOp) and isinstance(e.slice.op, ast.USub) and isinstance(e.slice.operand, ast.Constant):
+                    if e.slice.operand.value == 1:
+                        return T_OPTINT
+                    if e.slice.operand.value == 2:
+                        return T_INT
                 return T_SPEC
             return None
         if isinstance(e, ast.IfExp):
@@ -596,8 +611,10 @@ class World:
         if isinstance(v, dict):
             return T_DICT
         e = mi.consts.get(name)
-        if isinstance(e, ast.Call) and isinstance(e.func, ast.Name) and e.func.id == "load_rules":
-            return T_SPEC
+        if isinstance(e, ast.Call):
+            r0 = self.prog.resolve_name_expr(mi, e.func)
+            if r0 and r0[0] == "func" and self.is_json_loader(r0[1]):
+                return T_SPEC
         if isinstance(e, ast.Call):
             r = self.prog.resolve_name_expr(mi, e.func)
             if r and r[0] == "external":
@@ -606,8 +623,88 @@ class World:
             return T_DICT
         return None
 
+    def is_json_loader(self, fi: FuncInfo) -> bool:
+        """the function returns data parsed by json.loads/json.load"""
+        loaded = set()
+        for n in ast.walk(fi.node):
+            if isinstance(n, ast.Assign) and isinstance(n.value, ast.Call):
+                r = self.prog.resolve_name_expr(fi.module, n.value.func)
+                if r and r[0] == "external" and r[1] in ("json.loads", "json.load"):
+                    for t in n.targets:
+                        if isinstance(t, ast.Name):
+                            loaded.add(t.id)
+        for n in ast.walk(fi.node):
+            if isinstance(n, ast.Return) and n.value is not None:
+                v = n.value
+                if isinstance(v, ast.Name) and v.id in loaded:
+                    return True
+                if isinstance(v, ast.Call):
+                    r = self.prog.resolve_name_expr(fi.module, v.func)
+                    if r and r[0] == "external" and r[1] in ("json.loads", "json.load"):
+                        return True
+        return False
+
     def rule_field_type(self, attr: str):
+        """types of Rule's fields, from the assignments in Rule.__init__"""
+        if not hasattr(self, "_rule_fields"):
+            self._rule_fields = {}
+            ci = self.prog.classes.get(RULE_Q)
+            for m in (list(ci.methods.values()) if ci else []):
+                if not m.bound or m.kind == "class":
+                    continue
+                ft = self.types(m)
+                sname = m.params[0] if m.params else "self"
+                for n in ast.walk(m.node):
+                    if isinstance(n, ast.Assign):
+                        for t in n.targets:
+                            if isinstance(t, ast.Attribute) and isinstance(t.value, ast.Name) and t.value.id == sname:
+                                vt = ft.type_of(n.value)
+                                if vt is not None:
+                                    self._rule_fields[t.attr] = tjoin(self._rule_fields.get(t.attr), vt)
+        t = self._rule_fields.get(attr)
+        if t is not None:
+            return t
+        ci = self.prog.classes.get(RULE_Q)
+        m = ci.methods.get(attr) if ci else None
+        if m is not None and m.kind == "property":
+            return self.return_type(m)
         return None
+
+    def param_types_from_calls(self):
+        """join of the types of the actuals over all call sites, per (function, parameter);
+        only used to propagate spec-taint into untyped/`list`-annotated parameters"""
+        if hasattr(self, "_pt"):
+            return self._pt
+        self._pt = {}
+        from .model import iter_funcs_in_module
+        for _ in range(4):
+            changed = False
+            for mi in self.prog.modules.values():
+                for fi in iter_funcs_in_module(mi):
+                    ft = self.types(fi)
+                    for n in ast.walk(fi.node):
+                        if not isinstance(n, ast.Call):
+                            continue
+                        for tg in self.resolve_call(ft, n):
+                            if tg.func is None:
+                                continue
+                            for pn, a in self.arg_map(tg, n).items():
+                                t = ft.type_of(a)
+                                if t == T_SPEC:
+                                    key = (tg.func.qname, pn)
+                                    if self._pt.get(key) != T_SPEC:
+                                        self._pt[key] = T_SPEC
+                                        changed = True
+            if changed:
+                # re-infer the functions whose parameters changed
+                for (q, pn) in list(self._pt):
+                    ft = self._ft.get(q)
+                    if ft is not None and ft.env.get(pn) != T_SPEC:
+                        self._ft.pop(q, None)
+                self._ret.clear()
+            else:
+                break
+        return self._pt
 
     def return_type(self, fi: FuncInfo):
         if fi.qname in self._ret:
